@@ -161,8 +161,12 @@ func famReorder() {
 			}
 		}
 		rec["icosts"] = ic
+		// how the options reach the compiler: programmatically, by a ;;;; directive, or by a directive
+		// that overrides options saying the opposite (the cost table is the config's in every case)
+		how := []string{"", "", "dir", "mix"}[r.Intn(4)]
+		rec["how"] = how
 		obs := func(mask int, costs map[string]float64) M {
-			c := compileVariant(src, ConfOpts{Mask: mask, Costs: costs}, false)
+			c := compileVariant(src, ConfOpts{Mask: mask, Costs: costs, How: how, Spell: r.Intn(36)}, false)
 			o := M{"cout": c.rec["cout"], "dok": false}
 			if c.expr != nil && c.rec["dok"] == true {
 				o["dok"], o["dtree"] = true, c.rec["dtree"]
